@@ -37,8 +37,8 @@ XCHECK_VECTORS = 6
 
 def bounds_text(tier):
     if tier == "quick":
-        return "payloads 1x1, 3x5, 12x40 (> one 8 KiB buffer) x histories 0,1,3 x {death, interrupt}: every crash point"
-    return "payloads 1x1, 3x5, 6x40, 12x40, 30x40 x histories 0..3 x {death, interrupt}: every crash point"
+        return "payloads 1x1, 3x5, 12x40 (> one 8 KiB buffer) x histories 0,1,3 x {death, interrupt}: every crash point; + results file = symbolic link into another directory (3x5, 12x40 x histories 1,3)"
+    return "payloads 1x1, 3x5, 6x40, 12x40, 30x40 x histories 0..3 x {death, interrupt}: every crash point; + symbolic-link layout"
 
 
 def tasks(tier, seed):
@@ -50,6 +50,12 @@ def tasks(tier, seed):
             for h in hists:
                 out.append({"key": f"{mode}/payload{pay[0]}x{pay[1]}/history{h}", "mode": mode, "payload": list(pay), "history": h,
                             "canary": pay == (3, 5) and h == 1})
+    # the results file is a symbolic link into another directory (shared storage) that already holds the earlier runs
+    for mode in ("death", "interrupt"):
+        for pay in ((3, 5), (12, 40)) if tier == "quick" else pays[1:]:
+            for h in (1, 3):
+                out.append({"key": f"{mode}/payload{pay[0]}x{pay[1]}/history{h}/symlink", "mode": mode, "payload": list(pay), "history": h,
+                            "layout": "symlink"})
     return out
 
 
@@ -95,8 +101,14 @@ def _history_and_save(pk, params, layer, arm):
     """h earlier saves (never interrupted), then the save under test with the crash hook armed."""
     rows, cols = params["payload"]
     path = Path(VROOT) / "results" / "data.json"
-    for i in range(params["history"]):
-        pk.run_save.save_json(path, f"run{i}", _output(pk, 2, 3, f"old{i}"))
+    if params.get("layout") == "symlink":
+        store = Path(VROOT) / "store" / "data.json"
+        for i in range(params["history"]):
+            pk.run_save.save_json(store, f"run{i}", _output(pk, 2, 3, f"old{i}"))
+        os.symlink(os.fspath(store), os.fspath(path))
+    else:
+        for i in range(params["history"]):
+            pk.run_save.save_json(path, f"run{i}", _output(pk, 2, 3, f"old{i}"))
     old = layer_read(layer, path)
     arm()
     pk.run_save.save_json(path, "new-run", _output(pk, rows, cols, "new"))
@@ -106,7 +118,7 @@ def _history_and_save(pk, params, layer, arm):
 def layer_read(layer, path):
     p = os.fspath(path)
     if layer.backend == "model":
-        return layer.disk.get(p)
+        return layer.disk.get(layer._res(p))
     rp = layer.r(p)
     if not os.path.exists(rp):
         return None
@@ -125,13 +137,14 @@ def _model_run(pk, params, crash):
     outcome = "completed"
     with layer:
         layer.dirs.add(f"{VROOT}/results")
+        layer.dirs.add(f"{VROOT}/store")
         try:
             old = _history_and_save(pk, params, layer, arm)
         except ProcessDied:
             outcome = "died"
         except KeyboardInterrupt:
             outcome = "interrupted"
-    final = layer.disk.get(f"{VROOT}/results/data.json")
+    final = layer.disk.get(layer._res(f"{VROOT}/results/data.json"))
     return layer, old, final, outcome, state["base"]
 
 
@@ -140,6 +153,7 @@ def _real_run(pk, params, c):
     root = tempfile.mkdtemp(prefix="c20real_")
     try:
         os.makedirs(os.path.join(root, "results"))
+        os.makedirs(os.path.join(root, "store"))
         rd, wr = os.pipe()
         pid = os.fork()
         if pid == 0:
